@@ -20,6 +20,11 @@ def fmt_name(tag, body):
     if tag in (6, 14) and body[:1] == b'\x04':
         a = {1: 'rsa', 17: 'dsa', 16: 'elg', 19: 'ecdsa', 22: 'eddsa', 18: 'ecdh'}.get(body[5])
         return a and ('pub_' if tag == 6 else 'sub_') + a
+    if tag in (5, 7) and body[:1] == b'\x04':
+        a = {1: 'rsa', 17: 'dsa', 16: 'elg', 19: 'ecdsa', 22: 'eddsa', 18: 'ecdh'}.get(body[5])
+        pre = 'sec_' if tag == 5 else 'ssb_'
+        # the S2K usage octet sits after the algorithm-specific public part: offer every secret-key format of that algorithm
+        return a and [pre + a + sfx for sfx in ('_plain', '_254', '_255', '_254_salted', '_254_simple', '_gnu')]
     return {8: 'compressed', 9: 'sed', 10: 'marker', 11: 'literal', 13: 'userid', 17: 'uattr', 18: 'seipd', 19: 'mdc'}.get(tag)
 
 
@@ -64,7 +69,22 @@ class H:
         canonical = S.new_header(tag, len(body)) + body
         if canonical != pkt:
             return   # non-minimal / partial framing: outside the model (covered by the implementation oracles)
-        r = d.call('dec', name, hx(pkt + TRAIL))
+        if isinstance(name, list):
+            known = set(d.call('formats').split(' ')) if not hasattr(self, '_formats') else self._formats
+            self._formats = known
+            r, chosen = 'ERR', None
+            for cand in name:
+                if cand not in known: continue
+                r = d.call('dec', cand, hx(pkt + TRAIL))
+                if r != 'ERR' and r.endswith(' | ' + hx(TRAIL)):
+                    chosen = cand; break
+            if chosen is None:
+                ctx.case(suite + '-model', ('secret-unmodelled', pkt[:16]), nontrivial=False)
+                ctx.dist['secret-key-forms-outside-model'] = ctx.dist.get('secret-key-forms-outside-model', 0) + 1
+                return
+            name = chosen
+        else:
+            r = d.call('dec', name, hx(pkt + TRAIL))
         case = {'op': 'model', 'fmt': name, 'pkt': pkt.hex()[:2000], 'origin': origin}
         ctx.case(suite + '-model', (name, pkt), sample={'fmt': name, 'value': r[:160]})
         if r == 'ERR':
